@@ -54,6 +54,7 @@ type zzChainModel struct {
 	notified   []btcutil.Address
 	// block contents (C16 recovery): height -> transactions
 	txsAt  map[int32][]*wire.MsgTx
+	rescans   int   // rescan requests received
 	filterErr error // C16: FilterBlocks fails with this error while set
 	concreteTs bool // C16 batch harness: concrete block timestamps
 	params *chaincfg.Params
@@ -146,6 +147,23 @@ func (c *zzChainModel) GetBlockHeader(h *chainhash.Hash) (*wire.BlockHeader, err
 func (c *zzChainModel) BlockStamp() (*waddrmgr.BlockStamp, error) {
 	t := c.tip()
 	return &waddrmgr.BlockStamp{Height: t.height, Hash: zzHash(t.height, t.fork), Timestamp: time.Unix(c.ts(t.height, t.fork), 0)}, nil
+}
+
+// Rescan: the request is accepted; the harness plays the backend's answer
+// (RescanFinished and whatever follows) through the notification channel.
+func (c *zzChainModel) Rescan(_ *chainhash.Hash, _ []btcutil.Address, _ map[wire.OutPoint]btcutil.Address) error {
+	c.rescans++
+	return nil
+}
+
+// startRescanPipeline starts the wallet's real notification and rescan
+// goroutines (as Wallet.Start / SynchronizeRPC do).
+func (ww *zzWalletWorld) startRescanPipeline() {
+	ww.w.wg.Add(4)
+	go ww.w.handleChainNotifications()
+	go ww.w.rescanBatchHandler()
+	go ww.w.rescanProgressHandler()
+	go ww.w.rescanRPCHandler()
 }
 
 func (c *zzChainModel) IsCurrent() bool                      { return true }
